@@ -580,6 +580,21 @@ def _filter(ex, st, args, kwargs):
 
 def _getattr(ex, st, args, kwargs):
     o, name = args[0], args[1]
+    if is_sym(name) and isinstance(o, Opaque):
+        # attribute chosen at run time on an abstract object: a function of (object, name); a missing
+        # attribute falls back to the default when one is given
+        from .contracts import pure_result
+
+        if o.kind in ex.db.total_getattr:
+            pass  # every requested attribute exists on objects of this kind (assumed, listed)
+        elif len(args) > 2:
+            st2 = st.fork()
+            yield st2, args[2]
+        else:
+            st2 = st.fork()
+            yield ex.raise_(st2, "AttributeError")
+        yield st, pure_result(ex, st, "getattr_" + o.kind, "u:object", [o, name])
+        return
     if is_sym(name):
         raise U("getattr with symbolic name")
     for st1, v in ex.getattr(st, o, name):
@@ -646,6 +661,15 @@ def _repr(ex, st, args, kwargs):
         fn = ex.uf("repr_str", z3.StringSort(), z3.StringSort())
         yield st, SV("str", fn(v.t))
         return
+    if isinstance(v, SV) and v.sort == "real":
+        f = ex.uf("py_float_repr", z3.RealSort(), z3.StringSort())
+        yield st, SV("str", f(v.t))
+        return
+    if isinstance(v, Opaque):
+        from .contracts import pure_result
+
+        yield st, pure_result(ex, st, "repr_" + v.kind, "str", [v])
+        return
     raise U(f"repr of {v!r}")
 
 
@@ -691,6 +715,9 @@ def _float(ex, st, args, kwargs):
 
 def _sorted(ex, st, args, kwargs):
     items = bm.iter_values(ex, st, args[0])
+    if items is not None and len(items) <= 1:
+        yield st, st.alloc(PList(items))
+        return
     if items is None or "key" in kwargs or any(is_sym(i) for i in items):
         raise U("sorted of symbolic")
     yield st, st.alloc(PList(sorted(items)))
@@ -827,7 +854,22 @@ def _deepcopy(ex, st, args, kwargs):
         yield st, st.alloc(c)
 
 
+def _isfinite(ex, st, args, kwargs):
+    (v,) = args
+    if not is_sym(v):
+        import math
+
+        yield st, math.isfinite(v)
+    else:
+        yield st, True  # symbolic floats are modelled as (finite) reals
+
+
+def _object(ex, st, args, kwargs):
+    yield st, Opaque("object")
+
+
 FUNCS = {
+    "math.isfinite": _isfinite, "object": _object,
     "copy.deepcopy": _deepcopy, "copy.copy": _deepcopy,
     "dataclasses.fields": _dc_fields,
     "round": _round,
@@ -1041,6 +1083,18 @@ def _m_split(ex, st, s, args, kwargs):
 
         seq = pure_result(ex, st, "py_split_ws", "seq[str]", [s])
         seq.pytype = "list"
+        yield st, seq
+        return
+    if len(args) == 1 and isinstance(args[0], str) and args[0]:
+        from .contracts import pure_result
+
+        sep = args[0]
+        seq = pure_result(ex, st, "py_split_" + "".join(f"{ord(c):02x}" for c in sep), "seq[str]", [s])
+        seq.pytype = "list"
+        idx = z3.IndexOf(s.t, z3.StringVal(sep), 0)
+        bm.axiom(seq.n >= 1)
+        bm.axiom(seq.arr[0] == z3.If(idx >= 0, z3.SubString(s.t, 0, idx), s.t))
+        bm.axiom((seq.n == 1) == (idx < 0))
         yield st, seq
         return
     raise U("split of symbolic string with separator")
@@ -1280,7 +1334,12 @@ def _s_add(ex, st, s, args, kwargs):
         yield st, None
         return
     if is_sym(args[0]):
-        raise U("set.add symbolic")
+        if s.items:
+            ex.give_up(st, "set.add of a symbolic value to a non-empty set")
+            return
+        s.items.add(args[0])  # a one-element set: no equality question arises
+        yield st, None
+        return
     s.items.add(args[0])
     yield st, None
 
